@@ -33,6 +33,7 @@ def register(reg):
             "not (ascii_decimal(old(piece_length)) and valid_piece_length_arg(int_value(old(piece_length))))")],
       ]}},
       raises_props=["C12"],
+      replay="pure",
       notes="accept iff valid (strongest reading the repaired code satisfies); exponents 26..29 free; "
             "for non-ASCII numerals only 'no other exception' and 'accepted only if it denotes a valid value' are required")
 
@@ -46,5 +47,6 @@ def register(reg):
       loops={0: {"invariant": [("inv_range", "14 <= exp <= 24"),
                                ("inv_prev_failed", "exp == 14 or size > 1000 * pow2(exp - 1)")],
                  "decreases": "24 - exp"}},
+      replay="pure",
       notes="float: size / 2**exp > 1000 is read over exact rationals (q > 1000 implies q >= 1000 + 2^-24, "
             "representable, so rounding cannot cross 1000; valid for size < 2^1000)")
